@@ -597,6 +597,28 @@ func c05Orientation(r *core.Report, pk string) {
 		}
 		lt := strings.Contains(core.ExprStr(sw.Body), "compare(i, j) < 0")
 		swOK = sortN != nil && eyN != nil && g.Dominates(sortN, eyN) && lt
+		// the layout is applied on every way out: from the sort, the exit is not reachable without the eytzinger call
+		// (and the copy back), except under a test that lets through fewer than two elements
+		if swOK {
+			trivial := func(x *core.GNode) bool {
+				if x.Kind != core.KEdge || x.Ast == nil || !x.Truth {
+					return false
+				}
+				be, ok := x.Ast.(*ast.BinaryExpr)
+				if !ok {
+					return false
+				}
+				lc, ok := core.Unparen(be.X).(*ast.CallExpr)
+				if !ok || core.BuiltinName(si, lc) != "len" {
+					return false
+				}
+				v, isC := core.ConstInt(si, be.Y)
+				return isC && ((be.Op == token.LEQ && v <= 1) || (be.Op == token.LSS && v <= 2))
+			}
+			if path := g.PathAvoiding(sortN, func(x *core.GNode) bool { return x.Kind == core.KExit }, func(x *core.GNode) bool { return x == eyN || trivial(x) }); path != nil {
+				swOK = false
+			}
+		}
 	}
 	// reader: `if k < x { index++ }`
 	ri := se.Pkg.TypesInfo
